@@ -31,6 +31,7 @@ def eval_case(case, seed, tier):
     for optimize, executor in variants:
         obs = run_case(case, seed=seed, optimize=optimize, executor=executor)
         cnt["evaluations"] += 1
+        cnt[f"all|{case['op']}|{case['params'].get('fn') or case['params'].get('op') or case['params'].get('mode') or case['params'].get('pa') or ''}"] += 1
         if not obs.ref_ok:
             cnt["numpy_refuses"] += 1
             continue
@@ -39,6 +40,7 @@ def eval_case(case, seed, tier):
             cnt[f"phase_{obs.phase}"] += 1
             continue
         cnt["compared"] += 1
+        cnt[f"cmp|{case['op']}|{case['params'].get('fn') or case['params'].get('op') or case['params'].get('mode') or case['params'].get('pa') or ''}"] += 1
         if obs.nontrivial and optimize:
             cnt["nontrivial"] += 1
         if obs.mismatch:
@@ -99,6 +101,11 @@ def run(ctx):
     ctx.set("executor_slice_cases", len(sl))
     ctx.set("program_cases", len(pc))
     ctx.set("operations", len(OPS))
+    # vacuity guard: catalogue entries (operation, variant) none of whose cases was ever compared with NumPy
+    allk = {k[4:] for k in total if k.startswith("all|")}
+    cmpk = {k[4:] for k in total if k.startswith("cmp|")}
+    ctx.set("operation_variants", len(allk))
+    ctx.set("operation_variants_never_compared", sorted(allk - cmpk))
     ctx.set("uncatalogued_public_callables", uncatalogued())
     ctx.set("rule", "case = (operation, every input shape x regular chunking of the tier, parameter tuple) x optimize_graph on/off "
             "(quick: off on every second case); distinct_nontrivial = distinct cases compared with NumPy in which some input has >= 2 blocks "
